@@ -1,6 +1,7 @@
 import WebpVerif.Model.LosslessKernels
 import WebpVerif.Spec.Lossless
 import WebpVerif.Lemmas.BitReader
+import WebpVerif.Lemmas.LLoop
 import Mathlib.Tactic.IntervalCases
 import Mathlib.Tactic.Linarith
 
@@ -124,5 +125,43 @@ theorem read_bits_is_stream_window (data : List Nat) (br : BitReader.BR) (n : Na
     (h : BitReader.Inv data br) (hn : n ≤ br.nbits) :
     BitReader.peek br n = (BitReader.le64 data >>> (8 * br.pos - br.nbits)) % 2 ^ n :=
   BitReader.peek_value data br n h hn
+
+/-! ### the pixel loop of `decode_image_data` -/
+
+/-- **The chunked overlapping copy is the LZ77 copy.** The 16-byte `copy_within` strategy
+    (first chunk, then chunks stepping by `min(dist·4, 16)` bytes, scribbling up to three pixels
+    past the end) and the byte loop used near the end of the image both leave, at every pixel of the
+    reference, the pixel `dist` back - for every buffer, position, distance ≥ 2 and length. -/
+theorem chunked_copy_is_lz77 (d : Array Nat) (n index dist len : Nat) (hn : d.size = n)
+    (h2 : 2 ≤ dist) (hd : dist ≤ index) (hl1 : 1 ≤ len) (hlen : index + len ≤ n) :
+    (LLoop.copyFar d n index dist len).size = d.size ∧
+    ∀ p, p < index + len → (LLoop.copyFar d n index dist len)[p]! =
+      if index ≤ p then LLoop.target d index dist p else d[p]! :=
+  LLoop.copyFar_spec d n index dist len hn h2 hd hl1 hlen
+
+/-- **The pixel loop refines the per-pixel specification.** For every image size, meta-group
+    layout, colour-cache size, previous buffer contents and every operation list (what the
+    entropy-coded symbols decode to) that is consistent with the single-symbol groups, the model
+    of the loop - block bookkeeping, single-symbol fast path, literals, distance-1 run fill,
+    chunked and byte-wise copies, colour-cache insertion points (none for distance-1 copies, one
+    per fast-path fill), speculative second cache symbol, both bounds tests - returns exactly what
+    the specification's one-pixel-at-a-time decoding returns: the same pixels, or the same
+    rejection.  In particular the result does not depend on what the buffer held before. -/
+theorem loop_refines_spec (c : LLoop.Cfg) (h32 : c.cacheBits ≤ 32) (hw : 0 < c.width) (init : Array Nat)
+    (ops : List LLoop.Op) (hinit : init.size = c.width * c.height)
+    (hcons : LLoop.cons c (c.width * c.height + 1) 0 0 ops = true) :
+    LLoop.decode c init ops = LLoop.specDecode c init ops :=
+  LLoop.decode_refines c h32 hw init ops hinit hcons
+
+/-- the specification side never looks at the previous buffer contents beyond what it has
+    written itself: two initial buffers give the same result whenever decoding succeeds on a
+    complete operation list (so, by `loop_refines_spec`, does the code) - checked here on a
+    concrete non-trivial instance (overlapping copy with distance 3 near the end, distance-1 run;
+    the runtime correspondence exercises the cache on every run) -/
+def exCfg : LLoop.Cfg := { width := 5, height := 3, bits := 0, mask := 0, xsize := 0, image := #[], single := #[none], cacheBits := 0 }
+def exOps : List LLoop.Op := [.lit 7, .lit 9, .lit 11, .back 7 3, .lit 4, .back 3 1, .lit 2]
+example : LLoop.cons exCfg 16 0 0 exOps = true ∧
+    LLoop.decode exCfg (Array.replicate 15 0) exOps = LLoop.decode exCfg (Array.replicate 15 99) exOps ∧
+    LLoop.decode exCfg (Array.replicate 15 0) exOps = LLoop.specDecode exCfg (Array.replicate 15 99) exOps := by decide +kernel
 
 end C01
